@@ -17,10 +17,11 @@ DIFF = {0: "oracle only", 1: "source live image", 2: "source head via fresh open
         5: "source snapshot images", 6: "source extents", 7: "source size",
         11: "destination live image", 12: "destination head via fresh open", 13: "destination chain",
         14: "destination attributes", 15: "destination snapshot images", 16: "destination extents", 17: "destination size",
-        21: "destination revision counter", 30: "implementation error"}
+        21: "destination revision counter", 22: "a step's outcome: the flow stopped on one side and went on on the other", 30: "implementation error"}
 COV_BITS = ["source_hole_during_rebuild", "preload_phase_hole", "merge_hole", "merge_filled_unknown_entry",
             "merge_kept_live_entry_over_preload", "writes_between_critical_sections", "forked_destination",
-            "unaligned_write_before_reload", "unaligned_write_after_reload", "auto_snapshot_differs"]
+            "unaligned_write_before_reload", "unaligned_write_after_reload", "auto_snapshot_differs",
+            "step_failed_flow_stopped", "step_failed_and_repeated"]
 KEY_RMW = "wo-rmw-stale"
 KEY_DIV = "diverged-hole-below-syncpoint"
 DIV_TEXT = ("a destination that has written on its own since the sync point (data the source never got) has punched blocks out of "
@@ -164,7 +165,10 @@ def rebuild_case(rng, unaligned_pre=False, race=False, nb=None):
             ev.append(COPY(rng.choice(need[:need.index(i) + 1])))     # a file synced twice
     for _ in range(rng.choice([0, 1, 2])):
         ev.append(g.write(p_un_pre, BW))
-    ev.append(dict(REL))
+    rl = dict(REL)
+    if rng.random() < 0.1:
+        rl.update(obst="volume", retry=rng.random() < 0.6)       # Server.Reload fails once (volume.meta not writable)
+    ev.append(rl)
     for _ in range(rng.choice([0, 0, 1, 2])):
         ev.append(g.write(0.4, BW))
     if race:
@@ -197,10 +201,16 @@ def clone_case(rng):
         for _ in range(rng.choice([0, 0, 1, 2])):
             ev.append(g.write(0.3, SW))
         ev.append(COPY(i))
-    ev.append(dict(CLONEINFO))
+    ci, rl = dict(CLONEINFO), dict(REL)
+    x = rng.random()
+    if x < 0.35:
+        ci.update(obst=rng.choice(["volume", "head"]), retry=rng.random() < 0.5)     # one metadata write of the step fails
+    elif x < 0.5:
+        rl.update(obst="volume", retry=rng.random() < 0.5)
+    ev.append(ci)
     if rng.random() < 0.4:
         ev.append(g.write(0.3, SW))
-    ev.append(dict(REL))
+    ev.append(rl)
     ev.append(ULM())
     case["ev"] = ev
     return case
@@ -217,6 +227,27 @@ def enum_cases():
             for mid in ([], [BW(2 * K, K, 9)], [BW(K, 2 * K, 9), BW(5 * K, K, 10)]):
                 ev = copies[:pos] + [BW(2 * K, 2 * K, 7)] + copies[pos:] + [dict(REL), BW(0, K, 8), ULM(mid)]
                 out.append(dict(mode="rebuild", K=K, nb=6, pre=pre, fork=fork, dpre=[W(3 * K, K, 5)] if fork >= 0 else [], ev=ev, snap=0))
+    return out
+
+
+# minimized histories of earlier detections; they run first
+CORPUS_C19 = [
+    # seeded C19-clone-rewire-head-meta: UpdateCloneInfo swallowed the failure of the write that rewires the head
+    dict(mode="clone", K=8, nb=4, pre=[W(0, 16, 1), SNAP(1, True), W(8, 8, 2)], fork=-1, dpre=[], snap=1, nopunch=False,
+         ev=[COPY(1), dict(CLONEINFO, obst="head"), dict(REL), ULM()]),
+]
+
+
+def clone_fault_cases():
+    """every single failed metadata write of the clone flow, the flow stopping there or the step being repeated"""
+    out = []
+    pre = [W(0, 16, 1), SNAP(1, True), W(8, 8, 2), SNAP(2, False), W(0, 8, 3)]
+    for step, obst in (("cloneinfo", "volume"), ("cloneinfo", "head"), ("reload", "volume")):
+        for retry in (False, True):
+            ci, rl = dict(CLONEINFO), dict(REL)
+            (ci if step == "cloneinfo" else rl).update(obst=obst, retry=retry)
+            out.append(dict(mode="clone", K=8, nb=4, pre=pre, fork=-1, dpre=[], snap=1, nopunch=False,
+                            ev=[COPY(1), SW(8, 8, 7), ci, rl, ULM()]))
     return out
 
 
@@ -344,6 +375,26 @@ def mev_term(e, out):
     raise ValueError(e)
 
 
+def mev_terms(c, out):
+    """the flow the MODEL predicts: an obstructed step fails; it is then repeated (retry) or the flow stops there"""
+    terms = []
+    for e in c["ev"]:
+        if e.get("obst"):
+            if e["k"] == "cloneinfo":
+                terms.append("MCloneInfoFail %d %d%%N" % (0 if e["obst"] == "volume" else 1, out.get("snaprev", 0)))
+            else:
+                terms.append("MReloadFail")
+            if not e.get("retry"):
+                break
+        terms.append(mev_term(e, out))
+    return terms
+
+
+def completed(out):
+    """on the implementation: no step reported a failure that was not repaired, and the flow ran to its end"""
+    return not out.get("err") and not out.get("stopped")
+
+
 def side_term(s):
     chain = "[%s]" % "; ".join("%d%%N" % (n if n >= 0 else 888888) for n in s["chain"])
     attr = "[%s]" % "; ".join("(%s, %s)" % (b(u), b(r)) for u, r in s["attr"])
@@ -358,14 +409,14 @@ EMPTY_SIDE = dict(live=0, fresh=0, chain=[], attr=[], snaps=[], ext=[], nblk=0, 
 def case_term(c, out):
     src = out.get("src") or EMPTY_SIDE
     dst = out.get("dst") or EMPTY_SIDE
-    return "mkrcase %s %s %s %s\n [%s]\n %s [%s] %d%%N\n [%s]\n [%s]\n %s\n %s %d%%N %d%%N" % (
+    return "mkrcase %s %s %s %s\n [%s]\n %s [%s] %d%%N\n [%s]\n [%s]\n %s\n %s %s %d%%N %d%%N" % (
         nat(c["K"]), nat(c["nb"]), b(c["mode"] == "clone"), b(c.get("nopunch", False)),
         "; ".join(op_term(o) for o in c["pre"]),
         "None" if c["fork"] < 0 else "(Some %d)" % c["fork"],
         "; ".join(op_term(o) for o in c["dpre"]), c.get("snap", 0),
-        ";\n  ".join(mev_term(e, out) for e in c["ev"]),
+        ";\n  ".join(mev_terms(c, out)),
         ";\n  ".join(rle_term(r) for r in out.get("tbl", [])),
-        side_term(src), side_term(dst), dst.get("rev", 0), out.get("snaprev", 0))
+        side_term(src), side_term(dst), b(completed(out)), dst.get("rev", 0), out.get("snaprev", 0))
 
 
 # ------------------------------------------------------------------------------------------ running
@@ -461,6 +512,12 @@ def shrink(ctx, binpath, case, still_bad, tag="rshr", rounds=16):
                     c = copy.deepcopy(cur)
                     del c["ev"][i][fld][j]
                     cands.append(c)
+        for i, e in enumerate(cur["ev"]):
+            if e.get("obst"):
+                c = copy.deepcopy(cur)
+                c["ev"][i].pop("obst")
+                c["ev"][i].pop("retry", None)
+                cands.append(c)
         if cur["fork"] >= 0:
             c = copy.deepcopy(cur)
             c["fork"], c["dpre"] = -1, []
@@ -484,6 +541,10 @@ def gen_cases(rng, pid, quick):
     cases = []
     if pid == "C07":
         cases += copy.deepcopy(CORPUS_C07)
+        for retry in (False, True):
+            c = copy.deepcopy(CORPUS_C07[0])
+            [e for e in c["ev"] if e["k"] == "reload"][0].update(obst="volume", retry=retry)
+            cases.append(c)
         cases += merge_enum_cases()
         cases += enum_cases()
         for _ in range(110 if quick else 3000):
@@ -495,6 +556,8 @@ def gen_cases(rng, pid, quick):
         for _ in range(20 if quick else 500):
             cases.append(rebuild_case(rng, unaligned_pre=True))
     else:
+        cases += copy.deepcopy(CORPUS_C19)
+        cases += clone_fault_cases()
         cases += clone_enum_cases()
         for _ in range(90 if quick else 2500):
             cases.append(clone_case(rng))
